@@ -3,6 +3,7 @@ import Driver.PathFam
 import Driver.ForestFam
 import Driver.Level2Fam
 import Driver.KernFam
+import Driver.MeshFam
 
 open Driver
 
@@ -21,6 +22,7 @@ def stepLine (st : St) (line : String) : St × String :=
     ({ st with forest := p }, out)
   | "level2" :: _ => (st, Level2Fam.step (line.drop 7).toString)
   | "kern" :: _ => (st, KernFam.step (line.drop 5).toString)
+  | "mesh" :: _ => (st, MeshFam.step (line.drop 5).toString)
   | _ => (st, "bad-family")
 
 partial def loop (h : IO.FS.Stream) (out : IO.FS.Stream) (st : St) : IO Unit := do
